@@ -17,33 +17,43 @@ def run(binp, prop, start, count, gmp, seed):
         res[d['index']]=(o['traceHash'],o['interHash'],o['steps'],(o.get('violation') or {}).get('class'))
     return res
 def main():
+    from concurrent.futures import ThreadPoolExecutor
     quick = len(sys.argv)>1 and sys.argv[1]=='quick'
-    props=['C01','C03','C04','C11','C12','C13','C16','C20'] if not quick else ['C01','C03','C11']
+    allp=['C01','C02','C03','C04','C05','C06','C07','C08','C09','C10','C11','C12','C13','C15','C16','C18','C19','C20']
+    props=allp if not quick else ['C01','C03','C06','C11','C16']
+    heavy={'C06':6,'C05':16}
     nseeds = 64 if not quick else 16
-    t0=time.time(); diverged=[]; compared=0
+    gmps=[1,1,4,4,16,16] if not quick else [1,1,4,16]
+    t0=time.time(); diverged=[]; compared=0; procs=0
     plain=build('plain')+'/mosssim'
+    race=build('race')+'/mosssim-race'
+    jobs=[]
     for prop in props:
-        base=None
-        for rep,gmp in [(0,1),(1,1),(2,4),(3,16)]:
-            r=run(plain,prop,0,nseeds,gmp,7)
-            if base is None: base=r; continue
+        for tier_seed in ([7] if quick else [7,11]):
+            for rep,gmp in enumerate(gmps):
+                jobs.append((plain,'plain',prop,heavy.get(prop,nseeds),gmp,tier_seed,rep))
+    for prop in (['C17'] if quick else ['C17','C03','C16']):
+        for rep,gmp in enumerate([1,1,4] if quick else [1,1,4,16]):
+            jobs.append((race,'race',prop,(8 if quick else 24),gmp,7,rep))
+    def do(j):
+        binp,kind,prop,n,gmp,seed,rep=j
+        return j,run(binp,prop,0,n,gmp,seed)
+    results={}
+    with ThreadPoolExecutor(max_workers=int(os.environ.get('VERIF_WORKERS','8'))) as ex:
+        for j,r in ex.map(do,jobs):
+            procs+=1
+            key=(j[1],j[2],j[5])
+            if key not in results:
+                results[key]=(j,r); continue
+            base=results[key][1]
+            if len(r)!=len(base): diverged.append((j[2],j[1],'run-count',j[4],len(base),len(r)))
             for i,v in r.items():
                 compared+=1
-                if base.get(i)!=v: diverged.append((prop,'plain',i,gmp,base.get(i),v))
-    if not quick or True:
-        race=build('race')+'/mosssim-race'
-        for prop in (['C17'] if quick else ['C17','C03']):
-            base=None
-            for rep,gmp in [(0,1),(1,1),(2,4)]:
-                r=run(race,prop,0,(8 if quick else 24),gmp,7)
-                if base is None: base=r; continue
-                for i,v in r.items():
-                    compared+=1
-                    if base.get(i)!=v: diverged.append((prop,'race',i,gmp,base.get(i),v))
-    ev={'compared_runs':compared,'diverged':len(diverged),'examples':diverged[:10],'props':props,'seeds_per_prop':nseeds,'wall_s':time.time()-t0,
-        'what':'trace hash = FNV over every scheduling decision (step, chosen task, site) and every oracle observation; compared across processes and GOMAXPROCS 1/4/16, plain and -race builds'}
+                if base.get(i)!=v: diverged.append((j[2],j[1],i,j[4],base.get(i),v))
+    ev={'compared_runs':compared,'processes':procs,'diverged':len(diverged),'examples':diverged[:10],'props':props,'seeds_per_prop':nseeds,'gomaxprocs':gmps,'wall_s':time.time()-t0,
+        'what':'trace hash = FNV over every scheduling decision (step, chosen task, site) and every oracle observation; each (build, property, seed) batch is executed by several separate processes under GOMAXPROCS 1/4/16 and compared run by run with the first; plain and -race builds'}
     json.dump(ev,open(V+'/evidence/determinism.json','w'),indent=1)
-    print(json.dumps({k:ev[k] for k in ('compared_runs','diverged','wall_s')}))
+    print(json.dumps({k:ev[k] for k in ('compared_runs','processes','diverged','wall_s')}))
     for d in diverged[:10]: print('DIVERGED',d)
     sys.exit(1 if diverged else 0)
 main()
